@@ -361,7 +361,7 @@ Proof.
   intros Hne Hg.
   destruct (parse_full isalpha isdigit isupper lower_c kbs fp_words min_run tlds year_prefixes context_strings
               mw_threshold mw_min_len mw_max_len min_len_pos year_prefix_len tlds_nonempty min_run_4 m s Hg Hne)
-    as (r & Er & Ht & Hs & _ & Hcnt). eauto.
+    as (r & Er & Ht & Hs & _ & Hcnt & _). eauto.
 Qed.
 
 (* with the rebuild check of the repaired scorer: for EVERY string *)
